@@ -1,23 +1,34 @@
 """C20 - No input can corrupt memory in any program of the suite.
 
-One libFuzzer target per untrusted-input surface (inproc/c20_<name>.c).  Every target is a single translation unit
-that #includes the program's .c file (main renamed, _exit captured through `-Wl,--wrap=_exit` + longjmp so that the
-exits taken inside library objects are caught as well), replaces the substdio read/write ops or
-timeoutread/timeoutwrite/read/write by memory readers and checking sinks, and resets every global it touches at the
-top of each iteration.  The library objects come from a second scratch tree built with clang
+One libFuzzer target per untrusted-input surface (inproc/c20_<name>.c, helpers inproc/c20.h, c20_qq.h).  Every target is a
+single translation unit that #includes the program's .c file (main renamed; _exit captured through `-Wl,--wrap=_exit` +
+longjmp, so the exits taken inside library objects such as strerr_die are caught as well), replaces the substdio
+read/write ops or timeoutread/timeoutwrite/read/write/select/pipe/fork by memory readers, checking sinks and scripts,
+and resets every global it touches at the top of each iteration (strallocs freed and zeroed, substdio cursors rewound).
+The library objects come from a second scratch tree built with clang
 `-fsanitize=fuzzer-no-link,address,undefined -fno-sanitize-recover=undefined` (ASan + UBSan + coverage counters in the
-libraries too), the targets themselves with `-fsanitize=fuzzer,address,undefined`.
+libraries too); the targets themselves are built with `-fsanitize=fuzzer,address,undefined`.
+
+Targets (DESIGN.md section 5/C20): smtpd, qmtpd, qmqpd, token822, inject, dns, remote, spawn (spawn.c main loop + both
+report()s), control (control_* + constmap), cdb, local (-n main + bouncexf + gfrom), received, pop3d, popup, stralloc
+(stralloc/substdio/getln op sequences against a shadow model incl. the CVE-2005-1513 overflow guards), send (todo_do,
+del_dochan, rewrite/senderadd/addbounce/getinfo).  quote.c has no target of its own: it is driven through
+remote/inject/local/token822.
 
 Oracle (memory safety + documented termination ONLY; semantics belong to the other properties): no sanitizer report,
 no signal, termination by return or by a captured _exit whose status is in the program's documented set
-(`C20-ORACLE:` line + trap otherwise).  A crash-* artefact is re-run 3x in a fresh process; 3/3 => violation (the
-artefact, ddmin-minimised, is the replay file `replays/C20/<target>-<sha>.bin`), otherwise inconclusive.
-timeout-/oom-/slow-unit- artefacts are inconclusive.  LeakSanitizer is off: the programs are exit-to-free by design and
-leaks are not part of the property statement.
+(`C20-ORACLE:` line + trap otherwise); library entry points must return one of their documented codes; qmtpd/qmqpd must
+not get as far as qmail_open() for a declared netstring length >= 2^32 ("overflow a length computation").
+A crash-* artefact is re-run 3x in a fresh process; 3/3 => violation (the artefact, ddmin-minimised, is the replay
+file `replays/C20/<target>-<sha>.bin`), otherwise inconclusive.  timeout-/oom-/slow-unit- artefacts are inconclusive.
+LeakSanitizer is off: the programs are exit-to-free by design and leaks are not part of the property statement.
 
-Left out of the design's C20 section: the 10 % re-run of the C07/C08/C19/C13/C17 session generators against sanitised
-whole-program builds (those properties own their generators); the rapidcheck state machine is replaced by a libFuzzer
-op-sequence target (`stralloc`) with a shadow model for lengths only.
+Left out of the design's C20 section: pass_dochan() of qmail-send (needs a consistent job/prioq/clock state); the 10 %
+re-run of the C07/C08/C19/C13/C17 session generators against sanitised whole-program builds (those properties own their
+generators); the rapidcheck state machine is replaced by the libFuzzer op-sequence target `stralloc`; inputs are limited
+by -max_len (4 kB; token822 repeats its input up to 64 kB), so "64 kB SMTP lines / 1000 RCPTs" are not reached.
+Excluded by construction (counted in classes.excluded_*): an unterminated final report in a qmail-remote child's output
+(outside the protocol of qmail-remote.8; qmail-rspawn's report() would run substdio_puts past it).
 """
 import os, re, time, shutil, hashlib, subprocess
 import concurrent.futures as cf
@@ -82,6 +93,12 @@ KNOWN = {}
 ENV = dict(os.environ, ASAN_OPTIONS="detect_leaks=0:abort_on_error=0:allocator_may_return_null=1:handle_abort=1:quarantine_size_mb=32",
            UBSAN_OPTIONS="print_stacktrace=1")
 REPORT_RE = re.compile(r"(ERROR: AddressSanitizer|runtime error:|C20-ORACLE:|ERROR: libFuzzer: deadly signal|UndefinedBehaviorSanitizer)")
+
+
+class Acc:
+    """What a worker thread collects (same attribute names as Ctx where the helpers use them)."""
+    def __init__(self):
+        self.stats, self.notes, self.reconfirmed = vlib.Stats(), {}, []
 
 
 def build_tree(targets):
@@ -256,9 +273,7 @@ def reconfirm_known(ctx, t, binp):
         if ok:
             ctx.stats.cls("known_candidate_reconfirmed:" + sig)
             ctx.notes.setdefault("known_candidates", {})[sig + ":" + fn] = {"target": t.name, "file": "corpus/C20/%s/%s" % (t.name, fn), "summary": summ}
-            if not ctx.known_finding(sig):
-                ctx.stats.known_hits[sig] = ctx.stats.known_hits.get(sig, 0) + 1
-                print("C20 note: candidate finding %s (target %s, %s) still reproduces with the exclusion off: %s" % (sig, t.name, fn, summ), flush=True)
+            ctx.reconfirmed.append((sig, "C20 note: candidate finding %s (target %s, %s) still reproduces with the exclusion off: %s" % (sig, t.name, fn, summ)))
         else:
             ctx.stats.cls("known_candidate_not_reproduced:" + sig)
             ctx.notes.setdefault("known_candidates", {})[sig + ":" + fn] = {"target": t.name, "not_reproduced": summ,
@@ -348,8 +363,20 @@ def run(ctx):
     ctx.notes["build_s"] = round(time.time() - ctx.t0, 1)
     live = [t for t in targets if t.name in bins]
     # 1. regression corpus + re-confirmation of the excluded candidate findings
+    def reg(t):
+        acc = Acc()                     # private accumulator per worker thread, merged below
+        regress(acc, t, bins[t.name])
+        reconfirm_known(acc, t, bins[t.name])
+        return acc
     with cf.ThreadPoolExecutor(max_workers=vlib.NCPU) as ex:
-        list(ex.map(lambda t: (regress(ctx, t, bins[t.name]), reconfirm_known(ctx, t, bins[t.name])), live))
+        for acc in ex.map(reg, live):
+            ctx.stats.merge(acc.stats)
+            for k, v in acc.notes.items():
+                ctx.notes.setdefault(k, {}).update(v)
+            for sig, line in acc.reconfirmed:
+                if not ctx.known_finding(sig):
+                    ctx.stats.known_hits[sig] = ctx.stats.known_hits.get(sig, 0) + 1
+                    print(line, flush=True)
     ctx.notes["regress_s"] = round(time.time() - ctx.t0, 1)
     # 2. campaigns
     rounds = -(-len(live) // max(1, vlib.NCPU))
